@@ -24,7 +24,7 @@ import (
 const (
 	accessKey = "verifC28key"
 	secretKey = "verifC28secret0123456789"
-	chunkMB   = 4 << 20 // the filer's default -maxMB
+	chunkMB   = 1 << 20 // the cluster's filer runs with -maxMB=1 so that objects and parts span several filer chunks
 )
 
 type world struct {
@@ -364,8 +364,9 @@ func genUpload(rng *rand.Rand, idx int, big bool) uploadCase {
 		default:
 			ps.Size = 1 + rng.Intn(100<<10)
 		}
-		if big && len(uc.Parts) == 0 {
-			ps.Size = 1<<20 + rng.Intn(512<<10) // one part of 1-1.5 MiB
+		if big && len(uc.Parts) < 2 {
+			// parts around and above the filer chunk size: 1, 2 or 3 filer chunks per part
+			ps.Size = []int{chunkMB - 1, chunkMB, chunkMB + 1, 2*chunkMB + chunkMB/2, chunkMB + 1 + rng.Intn(chunkMB/2)}[rng.Intn(5)]
 		}
 		if rng.Intn(8) == 0 {
 			ps.Copy = true
@@ -384,7 +385,7 @@ func genUpload(rng *rand.Rand, idx int, big bool) uploadCase {
 	return uc
 }
 
-func (w *world) doUpload(bucket string, uc uploadCase, srcKey string, nRanges int) {
+func (w *world) doUpload(bucket string, uc uploadCase, srcKey, srcBig string, nRanges int) {
 	r := w.r
 	r.Case(map[string]interface{}{"phase": "multipart", "upload": uc})
 	id, resp, err := w.s3.InitiateMultipart(bucket, uc.Key)
@@ -406,13 +407,26 @@ func (w *world) doUpload(bucket string, uc uploadCase, srcKey string, nRanges in
 		if ps.Copy && len(src) > 0 {
 			rh := ""
 			data = src
-			if ps.Range != "" {
+			from := srcKey
+			if big := w.model[bucket][srcBig]; ps.Range != "" && len(big) > 2*chunkMB {
+				// range of the multi-chunk source that straddles one (sometimes two) chunk boundaries
+				from = srcBig
+				k := 1 + w.rng.Intn(2)
+				a := k*chunkMB - 1 - w.rng.Intn(200<<10)
+				b := k*chunkMB + w.rng.Intn(300<<10)
+				if w.rng.Intn(6) == 0 {
+					a, b = chunkMB-7, 2*chunkMB+7
+				}
+				rh = fmt.Sprintf("bytes=%d-%d", a, b)
+				data = big[a : b+1]
+				r.Count("part_copies_across_chunk_boundary", 1)
+			} else if ps.Range != "" {
 				a := w.rng.Intn(len(src))
 				b := a + w.rng.Intn(len(src)-a)
 				rh = fmt.Sprintf("bytes=%d-%d", a, b)
 				data = src[a : b+1]
 			}
-			resp, err = w.s3.UploadPartCopy(bucket, uc.Key, id, ps.Num, bucket, srcKey, rh)
+			resp, err = w.s3.UploadPartCopy(bucket, uc.Key, id, ps.Num, bucket, from, rh)
 			r.Count("part_copies", 1)
 		} else {
 			data = content(w.rng, ps.Size)
@@ -428,6 +442,9 @@ func (w *world) doUpload(bucket string, uc uploadCase, srcKey string, nRanges in
 			continue
 		}
 		r.Count("parts_uploaded", 1)
+		if len(data) > chunkMB {
+			r.Count("parts_spanning_several_filer_chunks", 1)
+		}
 		if ps.Reupload {
 			r.Count("parts_reuploaded", 1)
 		}
@@ -643,7 +660,7 @@ func main() {
 		c.Stop()
 		r.Finish(min)
 	}
-	if !lib.StartS3Cluster(c, []string{"-max=300"}, nil) {
+	if !lib.StartS3Cluster(c, []string{"-max=300"}, []string{"-maxMB=1"}) {
 		finish(0)
 	}
 	w := &world{r: r, s3: lib.NewS3(c.S3.Addr()), rng: r.SubRng("c28"), model: map[string]map[string][]byte{}, gone: map[string]map[string]bool{}, unknown: map[string]bool{}}
@@ -677,9 +694,9 @@ func main() {
 	}
 
 	// ---------------- phase 1: single PUT (plain / streaming-signed)
-	sizes := []int{0, 1, 2, 100, 4095, 65536, 1<<20 + 1, chunkMB + 1, chunkMB, 2*chunkMB + 5}
+	sizes := []int{0, 1, 2, 100, 4095, 65536, chunkMB - 1, chunkMB, chunkMB + 1, 2*chunkMB + chunkMB/2, 4*chunkMB + 1}
 	if r.Thorough() {
-		sizes = append(sizes, chunkMB-1, 3*chunkMB)
+		sizes = append(sizes, 2*chunkMB, 8*chunkMB+5, 12*chunkMB)
 	}
 	keyPat := []string{"obj/%d", "deep/dir/tree/obj-%d.bin", "sp ace/o bj %d", "uni-ü-✓-%d", "pct%%41-%d", "plus+%d", "q?mark-%d", "hash#tag-%d", "amp&eq=%d", "semi;colon,%d", "quote'\"%d", "back\\slash-%d", "tilde~star*-%d", "UPPER/Case-%d"}
 	nObj := r.Pick(30, 300)
@@ -791,10 +808,16 @@ func main() {
 			break
 		}
 	}
+	srcBig := ""
+	for _, o := range objs {
+		if o.bucket == A && len(w.model[A][o.key]) == 2*chunkMB+chunkMB/2 {
+			srcBig = o.key
+		}
+	}
 	urng := r.SubRng("c28-uploads")
 	for i := 0; i < nUp; i++ {
-		uc := genUpload(urng, i, i%10 == 0 || (r.Thorough() && i%3 == 0))
-		w.doUpload(A, uc, srcKey, r.Pick(4, 8))
+		uc := genUpload(urng, i, i%4 == 0 || (r.Thorough() && i%3 == 0))
+		w.doUpload(A, uc, srcKey, srcBig, r.Pick(4, 8))
 		if r.Violations() > 40 {
 			break
 		}
@@ -881,6 +904,9 @@ func main() {
 
 	if r.Counter("full_get_ok") == 0 || r.Counter("uploads_completed") == 0 || r.Counter("keys_deleted") == 0 {
 		r.Inconclusive("no object read back / no upload completed / no key deleted")
+	}
+	if want("mp") && r.Counter("parts_spanning_several_filer_chunks") == 0 {
+		r.Inconclusive("no uploaded part spanned more than one filer chunk")
 	}
 	if r.Counter("streaming_put_ok") == 0 {
 		r.Inconclusive("no streaming-signed PUT succeeded (signer or identities gateway problem)")
